@@ -8,6 +8,7 @@
   OBLIGATION c17_strings_description_quoted
   OBLIGATION c17_description_style
   OBLIGATION c17_strings_block
+  OBLIGATION c17_tokens_partial
   OBLIGATION c17_witness_reason_quote
   OBLIGATION c17_witness_single_line_backslash
   OBLIGATION c17_witness_tag_backslash
@@ -23,41 +24,17 @@
 import AGV.Model.Sdl
 import AGV.Spec.SdlParse
 import AGV.Lemmas.SdlBlock
+import AGV.Lemmas.SdlSkeletonDoc
 
 namespace AGV.Props.C17
 open AGV.Core.Sdl AGV.Model.Sdl AGV.Spec.Literal AGV.Spec.Lex AGV.Lemmas.SdlBlock
-
-/-- one arm of the repaired `escape_string` is read back as the character it stands for -/
-theorem lexString_escapeChar (c : Char) (tl : Text) :
-    lexString (escapeChar false c ++ tl) = (lexString tl).map (fun p => (c :: p.1, p.2)) := by
-  unfold escapeChar
-  by_cases h1 : c = '\\'
-  · subst h1; rw [lexString.eq_def]; simp [escaped]; cases lexString tl <;> rfl
-  by_cases h2 : c = '"'
-  · subst h2; rw [lexString.eq_def]; simp [escaped]; cases lexString tl <;> rfl
-  by_cases h3 : c = Char.ofNat 8
-  · subst h3; rw [lexString.eq_def]; simp [escaped]; cases lexString tl <;> rfl
-  by_cases h4 : c = Char.ofNat 12
-  · subst h4; rw [lexString.eq_def]; simp [escaped]; cases lexString tl <;> rfl
-  by_cases h5 : c = '\n'
-  · subst h5; rw [lexString.eq_def]; simp [escaped]; cases lexString tl <;> rfl
-  by_cases h6 : c = '\r'
-  · subst h6; rw [lexString.eq_def]; simp [escaped]; cases lexString tl <;> rfl
-  by_cases h7 : c = '\t'
-  · subst h7; rw [lexString.eq_def]; simp [escaped]; cases lexString tl <;> rfl
-  simp only [h1, h2, h3, h4, h5, h6, h7, if_false, Bool.false_and, Bool.and_true, Bool.not_false, decide_false, Bool.false_eq_true]
-  rw [List.singleton_append, lexString.eq_def]
-  simp [h1, h2, h5, h6]
-  cases lexString tl <;> rfl
 
 /-- Every text written by the repaired `escape_string` between two quotes is read back, by the
     specification's StringValue rule, as exactly that text — for all texts (all Unicode scalar
     values, any length), whatever follows the closing quote. -/
 theorem c17_strings_escape (t rest : Text) :
-    lexString (escapeString false t ++ '"' :: rest) = some (t, rest) := by
-  induction t with
-  | nil => rw [lexString.eq_def]; simp [escapeString]
-  | cons c r ih => simp [escapeString, List.append_assoc, lexString_escapeChar, ih]
+    lexString (escapeString false t ++ '"' :: rest) = some (t, rest) :=
+  lexString_escapeString t rest
 
 /-- … and the quoted text is a StringValue token, not the start of a block string: after the
     opening quote the text never continues with two more quotes (the exporter never lets another
@@ -66,19 +43,7 @@ theorem c17_strings_escape (t rest : Text) :
 theorem c17_strings_token (t rest : Text) (h : rest.head? ≠ some '"') :
     (∀ y, escapeString false t ++ '"' :: rest ≠ '"' :: '"' :: y) ∧
     lexString (escapeString false t ++ '"' :: rest) = some (t, rest) := by
-  refine ⟨?_, c17_strings_escape t rest⟩
-  intro y
-  cases t with
-  | nil =>
-    cases rest with
-    | nil => simp [escapeString]
-    | cons d rest' =>
-      have hd : d ≠ '"' := by simpa using h
-      simp [escapeString, hd]
-  | cons c r =>
-    simp only [escapeString, escapeChar]
-    repeat' split
-    all_goals simp_all
+  exact ⟨escapeString_not_block t rest h, c17_strings_escape t rest⟩
 
 /-- the deprecation reason: `@deprecated(reason: "…")` carries the reason itself -/
 theorem c17_strings_reason (r rest : Text) :
@@ -123,22 +88,8 @@ example : blockPrintable "a\n b".toList = true := by decide
     quotes, and `BlockStringValue` of the indented raw text is the description — all texts the
     repaired exporter prints as blocks, every indentation made of blanks, whatever follows -/
 theorem c17_strings_block : ∀ (tb d rest : Text), tb.all isBlank = true → blockPrintable d = true →
-    lexToken (quotes3 ++ '\n' :: tb ++ indentLines tb d ++ '\n' :: tb ++ quotes3 ++ '\n' :: rest) = some (.str d, '\n' :: rest) := by
-  intro tb d rest htb hd
-  have hd' := hd
-  simp only [blockPrintable, Bool.and_eq_true, Bool.not_eq_true'] at hd'
-  have hlb := lexBlock_indent tb d ('\n' :: rest) htb hd'.1.1.1
-  have e : quotes3 ++ '\n' :: tb ++ indentLines tb d ++ '\n' :: tb ++ quotes3 ++ '\n' :: rest =
-      '"' :: '"' :: '"' :: ('\n' :: tb ++ indentLines tb d ++ '\n' :: tb ++ quotes3 ++ '\n' :: rest) := by
-    simp [quotes3, List.append_assoc]
-  rw [e]
-  unfold lexToken
-  have h1 : isPunct '"' = false := by decide
-  have h2 : nameStart '"' = false := by decide
-  have h3 : isDig '"' = false := by decide
-  simp only [h1, h2, h3, hlb, blockStringValue_indent tb d htb hd]
-  simp
-
+    lexToken (quotes3 ++ '\n' :: tb ++ indentLines tb d ++ '\n' :: tb ++ quotes3 ++ '\n' :: rest) = some (.str d, '\n' :: rest) :=
+  fun tb d rest htb hd => lexToken_block tb d rest htb hd
 
 -- ------------------------------------------------------------------ witnesses of the toggles
 
@@ -197,10 +148,143 @@ theorem c17_witness_dynamic_registration :
         [⟨"x".toList, { tags := ["t".toList] }, .named "Int".toList true, none⟩]) := by
   refine ⟨rfl, rfl, rfl⟩
 
+-- ------------------------------------------------------------------ the document: type-definition skeleton
+
+section Skeleton
+open AGV.Core AGV.Core.PAst AGV.Spec.SdlParse AGV.Lemmas.SdlLex AGV.Lemmas.SdlSkeleton
+
+/-- the type definitions of the exported document: the first part of `exportSdl` -/
+def typeDefsText (S : Schema) (o : Opts) : Text :=
+  (((sortByName TypeDef.name S.types).filter (typeExported o)).map (exportType Defects.none o)).flatten
+
+/-- the type definitions of the required document: the first part of `describe` -/
+def typeDefsDoc (o : Opts) (S : Schema) : List SDef :=
+  ((sorted true TypeDef.name S.types).filter
+    (fun t => !startsDunder t.name && !(o.federation && (federationTypeNames.contains t.name || t.name = kwT "Any")))).filterMap (dType o)
+
+theorem register_none (k : Kind) (S : Schema) : register Defects.none k S = S := by
+  unfold register
+  split
+  · cases S with
+    | mk q m tys dd =>
+      simp only [Schema.mk.injEq, true_and, and_true]
+      conv => rhs; rw [← List.map_id tys]
+      apply List.map_congr_left
+      intro t _
+      cases t <;> rfl
+  · rfl
+
+theorem startsDunder_eq (n : Text) : startsDunder n = startsWith2Underscores n := by
+  unfold startsDunder startsWith2Underscores
+  split <;> simp_all
+
+/-- PARTIAL `c17_tokens`: for a plain (non-federation) export of a schema whose types are skeletons
+    (`SkelType`: names are Names; kinds, DESCRIPTIONS of types / fields / arguments / enum values /
+    input fields in either style, fields, argument lists in both layouts, type references of any
+    nesting, implements lists, union members, enum values, input fields — but no directive
+    applications, deprecations, default values, specifiedBy URLs or @oneOf), under every sorting /
+    indentation / description-style option: the type-definition part of the exported text — lexed by the
+    specification's lexer, parsed by the reference parser — is exactly the type-definition part of
+    the required document. -/
+theorem c17_tokens_partial (k : Kind) (S : Schema) (o : Opts) (ho : o.federation = false)
+    (hS : ∀ t ∈ S.types, SkelType t) (hne : typeDefsDoc o S ≠ []) :
+    (∃ tail, run Defects.none k S o = typeDefsText S o ++ tail) ∧
+    (∀ reg groups present, ∃ tail, describe o S reg groups present = typeDefsDoc o S ++ tail) ∧
+    parseSchema (typeDefsText S o) = some (typeDefsDoc o S) := by
+  refine ⟨⟨_, by rw [run, register_none]; unfold exportSdl typeDefsText; rw [List.append_assoc]⟩, fun reg groups present => ⟨_, by simp only [describe, typeDefsDoc, List.append_assoc]; rfl⟩, ?_⟩
+  have hfilt : (sorted true TypeDef.name S.types).filter
+      (fun t => !startsDunder t.name && !(o.federation && (federationTypeNames.contains t.name || t.name = kwT "Any"))) =
+      (sortByName TypeDef.name S.types).filter (typeExported o) := by
+    have : sorted true TypeDef.name S.types = sortByName TypeDef.name S.types := rfl
+    rw [this]
+    congr 1
+    funext t
+    simp [typeExported, ho, startsDunder_eq]
+  unfold typeDefsDoc at hne ⊢
+  rw [hfilt] at hne ⊢
+  exact parse_typeDefs o ho _ (fun t ht => hS t ((List.mem_mergeSort.mp (List.mem_filter.mp ht).1))) hne
+
+
+/-- a schema with an object (field with arguments, list / non-null wrappers, implements), an
+    interface, a union, an enum, an input object and a custom scalar -/
+def skeletonWitness : Schema :=
+  { query := "Q".toList, mutation := none, ddefs := [],
+    types :=
+      [ .object "Q".toList { desc := some "the root\n  of all \"queries\"".toList } false ["Node".toList]
+          [⟨"id".toList, {}, .named "ID".toList false, []⟩,
+           ⟨"find".toList, { desc := some "search".toList }, .listOf (.named "Hit".toList false) true,
+             [⟨"q".toList, { desc := some "what to look for".toList }, .named "Filter".toList false, none⟩,
+              ⟨"n".toList, {}, .named "Int".toList true, none⟩]⟩],
+        .interface "Node".toList {} false [] [⟨"id".toList, {}, .named "ID".toList false, []⟩],
+        .union "Hit".toList {} ["Q".toList, "Other".toList],
+        .object "Other".toList {} false [] [⟨"when".toList, {}, .named "Date".toList true, []⟩],
+        .enum "Mode".toList {} [("FAST".toList, { desc := some " leading blank: quoted style".toList }), ("EXACT".toList, {})],
+        .input "Filter".toList {} false [⟨"mode".toList, {}, .named "Mode".toList true, none⟩],
+        .scalar "Date".toList {} none,
+        .scalar "Int".toList {} none ] }
+
+example : (∀ t ∈ skeletonWitness.types, SkelType t) ∧ typeDefsDoc {} skeletonWitness ≠ [] := by
+  have pa : ∀ d : Option Text, PlainAttrs { desc := d } := fun _ => ⟨rfl, rfl⟩
+  constructor
+  · intro t ht
+    simp only [skeletonWitness, List.mem_cons, List.mem_nil_iff, or_false] at ht
+    rcases ht with rfl | rfl | rfl | rfl | rfl | rfl | rfl | rfl
+    · refine ⟨by decide, pa _, by decide, by simp, ?_⟩
+      intro f hf
+      simp only [List.mem_cons, List.mem_nil_iff, or_false] at hf
+      rcases hf with rfl | rfl
+      · exact ⟨⟨by decide, by (simp only [WfType]; decide), pa _, by simp⟩, by decide⟩
+      · refine ⟨⟨by decide, by (simp only [WfType]; decide), pa _, ?_⟩, by decide⟩
+        intro a ha
+        simp only [List.mem_cons, List.mem_nil_iff, or_false] at ha
+        rcases ha with rfl | rfl <;> exact ⟨by decide, by (simp only [WfType]; decide), rfl, pa _⟩
+    · refine ⟨by decide, pa _, by simp, by simp, ?_⟩
+      intro f hf
+      simp only [List.mem_cons, List.mem_nil_iff, or_false] at hf
+      subst hf
+      exact ⟨⟨by decide, by (simp only [WfType]; decide), pa _, by simp⟩, by decide⟩
+    · exact ⟨by decide, pa _, by simp, by decide⟩
+    · refine ⟨by decide, pa _, by simp, by simp, ?_⟩
+      intro f hf
+      simp only [List.mem_cons, List.mem_nil_iff, or_false] at hf
+      subst hf
+      exact ⟨⟨by decide, by (simp only [WfType]; decide), pa _, by simp⟩, by decide⟩
+    · refine ⟨by decide, pa _, by simp, ?_⟩
+      intro v hv
+      simp only [List.mem_cons, List.mem_nil_iff, or_false] at hv
+      rcases hv with rfl | rfl <;> exact ⟨by decide, by decide, pa _⟩
+    · refine ⟨by decide, pa _, rfl, by simp, ?_⟩
+      intro f hf
+      simp only [List.mem_cons, List.mem_nil_iff, or_false] at hf
+      subst hf
+      exact ⟨by decide, by (simp only [WfType]; decide), rfl, pa _⟩
+    · exact ⟨by decide, pa _, rfl⟩
+    · exact ⟨by decide, pa _, rfl⟩
+  · intro h
+    have hm : TypeDef.union "Hit".toList {} ["Q".toList, "Other".toList] ∈
+        (sorted true TypeDef.name skeletonWitness.types).filter
+          (fun t => !startsDunder t.name && !(({} : Opts).federation && (federationTypeNames.contains t.name || t.name = kwT "Any"))) := by
+      rw [List.mem_filter]
+      refine ⟨?_, by decide⟩
+      unfold sorted
+      rw [if_pos rfl, List.mem_mergeSort]
+      simp [skeletonWitness]
+    have : SDef.type false "Hit".toList none (dDirs {} {}) (.union ["Q".toList, "Other".toList]) ∈
+        typeDefsDoc {} skeletonWitness := List.mem_filterMap.mpr ⟨_, hm, rfl⟩
+    rw [h] at this
+    cases this
+
+end Skeleton
+
 -- ------------------------------------------------------------------ open
 
 /-- OPEN: the whole document: the reference parser reads the exported text as the description of
-    the registered schema (for schemas whose names are Names and whose values are well-formed) -/
+    the registered schema (for schemas whose names are Names and whose values are well-formed).
+    Proved for the type definitions of schemas without directive applications, deprecations and
+    default values (descriptions included): `c17_tokens_partial`; missing: directive applications
+    and deprecations in context (the token lemmas `c17_strings_reason` / `_tag` are proved),
+    default values (C15's round trip), directive definitions, the schema block, federation
+    exports. -/
 def c17_tokens : Prop :=
   ∀ (k : Kind) (S : Schema) (o : Opts), ∃ present,
     (AGV.Spec.SdlParse.parseSchema (run Defects.none k S o)).map (fun d => cDoc d) =
